@@ -321,7 +321,7 @@ impl Tzif {
         // Adjust for offset inversion from northern/southern hemisphere.
         let offset_range = offset_range(initial_record.utoff.0, next_record.utoff.0);
         match offset_range.contains(&current_diff.0) {
-            true if next_record.is_dst => Ok(LocalTimeRecordResult::Empty),
+            true if next_record.utoff > initial_record.utoff => Ok(LocalTimeRecordResult::Empty),
             true => Ok((next_record, initial_record).into()),
             false if current_diff <= initial_record.utoff => Ok(initial_record.into()),
             false => Ok(next_record.into()),
